@@ -227,6 +227,15 @@ func Classify(a *inssvc.Analysis, ob *evid.Obs) {
 			ob.Tag("retried-part")
 		}
 	}
+	parts, retried := a.Chunked()
+	for id, n := range parts {
+		if n >= 2 {
+			ob.Tag("parser-body-chunked(>=2 requests)")
+			if retried[id] {
+				ob.Tag("parser-body-chunked+retried-part")
+			}
+		}
+	}
 	if multi || afterFail {
 		ob.NonTrivial()
 	}
